@@ -4,7 +4,7 @@
 From Coq Require Import Reals List Permutation.
 Import ListNotations.
 From PD Require Import Model.Num Model.Spectrum Gen.Gen_spectrum
-  Proofs.SpectrumLists Proofs.SpectrumSF Proofs.SpectrumSmooth Proofs.SpectrumDFT4 Proofs.C16.
+  Proofs.SpectrumLists Proofs.SpectrumSF Proofs.SpectrumSmooth Proofs.SpectrumDFT4 Proofs.SpectrumDFTSmall Proofs.C16.
 Local Open Scope R_scope.
 
 Theorem C16_sf_nonneg : forall (F : dft_oracle) shape x,
@@ -112,6 +112,15 @@ Print Assumptions C16_smoothed_shares_invariances.
 Theorem C16_dft_spec_satisfiable : dft_spec dom4 dft4.
 Proof. exact dft4_spec. Qed.
 Print Assumptions C16_dft_spec_satisfiable.
+
+(* ... and so does an executable instance on the shapes (2,), (4,), (2,2); on (2,2) the axis-transposition
+   premise is witnessed non-trivially *)
+Theorem C16_dft_spec_satisfiable_nd :
+  dft_spec dom_small dft_small /\ dom_small [2%nat; 2%nat] /\ dom_small (swap_at 0 [2%nat; 2%nat]) /\
+  (exists x, dft_small true [2%nat; 2%nat] (fun n => x (swap_at 0 n)) [0%nat; 1%nat] <>
+             dft_small true [2%nat; 2%nat] x [0%nat; 1%nat]).
+Proof. exact (conj dft_small_spec (conj (or_intror (or_intror eq_refl)) (conj (or_intror (or_intror eq_refl)) dft_small_swap_nontrivial))). Qed.
+Print Assumptions C16_dft_spec_satisfiable_nd.
 
 Example C16_nonvacuous :
   dft_spec dom4 dft4 /\ dom4 [4%nat] /\ dom4 (swap_at 0 [4%nat]) /\
